@@ -4,7 +4,7 @@ import shutil
 import sqlite3
 import tempfile
 
-from vf.api import Ob, sl, concrete, SLICE, within, kf
+from vf.api import Ob, sl, concrete, SLICE, within, kf, fork_int, fork_bool
 
 from cylc.flow.rundb import CylcWorkflowDAO
 from cylc.flow.workflow_db_mgr import WorkflowDatabaseManager
@@ -33,13 +33,36 @@ META = dict(
             'position 0 (none) .. 7 (incl. the commit); crash or sqlite error',
             'public DB: 4 rounds, symbolic failure bit per round, 0..2 inserts '
             'per round, MAX_TRIES = 2, health check after every round'],
-    stubs=['failure injection wrapper around sqlite3.Connection'],
+    stubs=['failure injection wrapper around sqlite3.Connection',
+           'rundb.pformat (log-message formatting only) -> constant string',
+           'workflow_db_mgr.mkstemp -> deterministic unused file name'],
     assumptions=['the scheduler calls database_health_check (recover_pub_from_'
                  'pri) between writes, as its main loop does'],
     outside=['real lock contention timing', 'other tables'],
 )
 
 SCRATCH = []
+
+# formatting stub: pprint.pformat cannot be executed under CrossHair (the
+# error message it builds is only logged); the statements are unaffected.
+import cylc.flow.rundb as _rundb
+_rundb.pformat = lambda obj, *a, **k: '<sql queue>'
+
+# environment stub: tempfile.mkstemp draws random names (CrossHair makes
+# `random` symbolic); use a deterministic unused name in the same directory.
+import cylc.flow.workflow_db_mgr as _wdm
+
+
+def _mkstemp(prefix='tmp', dir=None):
+    i = 0
+    while True:
+        path = os.path.join(dir, f'{prefix}.tmp{i}')
+        if not os.path.exists(path):
+            return os.open(path, os.O_RDWR | os.O_CREAT | os.O_EXCL, 0o600), path
+        i += 1
+
+
+_wdm.mkstemp = _mkstemp
 
 
 class Crash(BaseException):
@@ -109,7 +132,7 @@ def event(k):
 def pri_atomic(n_ev: int, n_par: int, upd: bool, dele: bool, at: int,
                crash: bool) -> bool:
     """
-    pre: sl(at=at)
+    pre: sl(at=at, crash=crash)
     pre: 0 <= n_ev <= 2 and 0 <= n_par <= 2 and 0 <= at <= 7
     post: _
     """
@@ -123,6 +146,9 @@ def pri_atomic(n_ev: int, n_par: int, upd: bool, dele: bool, at: int,
         dao.add_insert_item('workflow_params', ['kdel', 'x'])
         dao.execute_queued_items()
         before = dump(dao.db_file_name)
+    n_ev, n_par = fork_int(n_ev, 0, 2), fork_int(n_par, 0, 2)
+    upd, dele, crash = fork_bool(upd), fork_bool(dele), fork_bool(crash)
+    at = fork_int(at, 0, 7)
     try:
         for i in range(n_ev):
             dao.add_insert_item('task_events', event(i + 1))
@@ -176,6 +202,7 @@ def pri_atomic(n_ev: int, n_par: int, upd: bool, dele: bool, at: int,
 def pub_converges(f1: bool, f2: bool, f3: bool, n1: int, n2: int, n3: int,
                   keyed: bool) -> bool:
     """
+    pre: sl(f1=f1, f2=f2)
     pre: 0 <= n1 <= 2 and 0 <= n2 <= 2 and 0 <= n3 <= 1
     pre: not kf('pub_converges', f1=f1, f2=f2, f3=f3, n1=n1, n2=n2, n3=n3, keyed=keyed)
     post: _
@@ -194,6 +221,9 @@ def pub_converges(f1: bool, f2: bool, f3: bool, n1: int, n2: int, n3: int,
         mgr.db_deletes_map = {t: [] for t in tables}
         mgr.db_inserts_map = {t: [] for t in tables}
         mgr.db_updates_map = {t: [] for t in tables}
+    n1, n2, n3 = fork_int(n1, 0, 2), fork_int(n2, 0, 2), fork_int(n3, 0, 1)
+    f1, f2, f3 = fork_bool(f1), fork_bool(f2), fork_bool(f3)
+    keyed = fork_bool(keyed)
     try:
         k = 0
         for fail, n in ((f1, n1), (f2, n2), (f3, n3), (False, 0)):
@@ -219,9 +249,13 @@ def pub_converges(f1: bool, f2: bool, f3: bool, n1: int, n2: int, n3: int,
 def OBLIGATIONS(tier):
     big = tier == 'thorough'
     t = 1200 if big else 150
-    obs = [Ob(f'pri_atomic[at={at}]', 'pri_atomic', timeout=t,
-              slice={'at': at}) for at in range(8)]
-    obs.append(Ob('pub_converges', 'pub_converges', timeout=t))
+    obs = [Ob(f'pri_atomic[at={at},crash={c}]', 'pri_atomic', timeout=t,
+              slice={'at': at, 'crash': c})
+           for at in range(8) for c in ((False, True) if at else (False,))]
+    for f1 in (False, True):
+        for f2 in (False, True):
+            obs.append(Ob(f'pub_converges[f1={f1},f2={f2}]', 'pub_converges',
+                          timeout=t, slice={'f1': f1, 'f2': f2}))
     return obs
 
 
